@@ -896,7 +896,7 @@ def run(repo, R):
         bad = []
         wrong_backend = []
         n = 0
-        for L in itertools.product(range(5), repeat=3):
+        for L in itertools.product(range(7 if R.tier == "thorough" else 5), repeat=3):
             n += 1
             c2 = Ctx()
             ff, it = run_fn(repo, "evaluate_deriv_density", c2, {"orders": L})
